@@ -276,7 +276,22 @@ def r6_signature(ck, cx):
                     if isinstance(node, ast.Call) and callee_name(node) == 'processIncomingPacket':
                         n += 1
                         given = set(required[:len(node.args)]) | {k.arg for k in node.keywords if k.arg}
-                        missing = [r for r in required if r not in given]
+                        # f(..., **options): the keys of a dictionary built in this function are arguments too; an unknown one may supply anything
+                        opaque = False
+                        for k in node.keywords:
+                            if k.arg is not None:
+                                continue
+                            v = k.value
+                            if isinstance(v, ast.Name):
+                                binds = [a.value for a in ast.walk(fn.node) if isinstance(a, ast.Assign) and any(isinstance(t, ast.Name) and t.id == v.id for t in a.targets)]
+                                v = binds[0] if len(binds) == 1 else None
+                            if isinstance(v, ast.Call) and callee_name(v) == 'dict' and not v.args and all(x.arg for x in v.keywords):
+                                given |= {x.arg for x in v.keywords}
+                            elif isinstance(v, ast.Dict) and all(isinstance(x, ast.Constant) for x in v.keys):
+                                given |= {x.value for x in v.keys}
+                            else:
+                                opaque = True
+                        missing = [] if opaque else [r for r in required if r not in given]
                         ck.ob('R6', fn.qn, 'call supplies %s' % required, not missing,
                               detail='missing-arguments %s' % missing, loc=cx.floc(fn, node),
                               message='%s calls processIncomingPacket without %s: TypeError on every packet' % (fn.qn, missing))
